@@ -166,6 +166,13 @@ static inline const std::vector<Getter> &getters() {
 			     for (size_t i = 0; i < s.track_outputs_count; i++) { Visitor::Scope sc(v, "output[" + std::to_string(i) + "]."); v.str("id", &s.track_outputs[i].id); F(v, s.track_outputs[i], cs_state); }
 		     }, [](t_bidib_track_state s) { bidib_free_track_state(s); });
 	     }},
+	    // positions within the arrays of bidib_get_state() ((size_t) -1 = not found)
+	    {"bidib_get_point_state_index", A_POINT, [](const char *id, const char *, const uint8_t *) {
+		     return by_value<size_t>(bidib_get_point_state_index(id), [](Visitor &v, const size_t &x, bool) { v.scalar("index", &x, sizeof x); }, nullptr); }},
+	    {"bidib_get_signal_state_index", A_SIGNAL, [](const char *id, const char *, const uint8_t *) {
+		     return by_value<size_t>(bidib_get_signal_state_index(id), [](Visitor &v, const size_t &x, bool) { v.scalar("index", &x, sizeof x); }, nullptr); }},
+	    {"bidib_get_segment_state_index", A_SEGMENT, [](const char *id, const char *, const uint8_t *) {
+		     return by_value<size_t>(bidib_get_segment_state_index(id), [](Visitor &v, const size_t &x, bool) { v.scalar("index", &x, sizeof x); }, nullptr); }},
 	    {"bidib_get_point_state", A_POINT, [](const char *id, const char *, const uint8_t *) { return unified(bidib_get_point_state(id)); }},
 	    {"bidib_get_signal_state", A_SIGNAL, [](const char *id, const char *, const uint8_t *) { return unified(bidib_get_signal_state(id)); }},
 	    {"bidib_get_peripheral_state", A_PERIPHERAL, [](const char *id, const char *, const uint8_t *) {
